@@ -149,6 +149,7 @@ pub fn profile(prop: Prop, thorough: bool) -> Profile {
             ..base
         },
         Prop::C08 => Profile {
+            reuse_denoms: 150,
             kinds: [26, 14, 22, 3, 1, 3, 1, 10, 2, 18, 2],
             convertible: 1000,
             conv_asks: 850,
@@ -249,9 +250,12 @@ pub fn build_world(w: &[u32; WORLD_WORDS], p: &Profile) -> WorldSpec {
     let mut quotes: Vec<String> = (0..n_quote).map(|i| format!("quote{}", i + 1)).collect();
     if gate(w[5], p.reuse_denoms) {
         // a denomination playing two roles
-        match pick(w[5] << 6, 3) {
+        match pick(w[5] << 6, 5) {
             0 if !convertibles.is_empty() => convertibles[0] = quotes[0].clone(),
             1 => quotes[n_quote - 1] = base.clone(),
+            // the contract's own base listed among the convertible denominations
+            2 => convertibles.push(base.clone()),
+            3 => convertibles.insert(0, base.clone()),
             _ => {
                 if convertibles.is_empty() {
                     convertibles.push(quotes[0].clone());
